@@ -6,7 +6,9 @@
    by a state-defined observer clause [mo_obs]: a memo f verified at v_f "observes" every
    query d of its semantic call closure at v_f; whenever d's memo has a changed_at stamp
    <= v_f -- or d has provably been stable since v_f -- d's value at v_f is the value at d's
-   own verified_at, and f's recorded durability is <= d's recorded durability. *)
+   own verified_at, and f's recorded durability is <= d's recorded durability.
+   Two further clauses make changed_at stamps monotone over time ([mo_stamp], [ext_mono]);
+   with them the debug-build backdate-violation assertion is unreachable. *)
 From Salsa Require Import Base.
 From Salsa.Kern Require Import CoreK CoreKFacts.
 From Salsa.Core Require Import Model Spec SpecProofs Wp Inv InvFrame DurSem.
@@ -26,6 +28,15 @@ Notation wstable := (wstable).
 
 Definition lcs (s : db) (k : dur) : rev := last_changed (d_revs s) k.
 
+(* the stamp c is at most the current stamp of the read x (an untracked read is stamped with
+   the revision of the run, which bounds every stamp) *)
+Definition sle (s : db) (c : rev) (x : rd) : Prop :=
+  match x with
+  | RIn i => c <= f_changed (d_in s i)
+  | RQ d => exists md, d_memo s d = Some md /\ c <= m_changed md
+  | _ => True
+  end.
+
 (* when the observer clause fires for an observer verified at v and d's memo md *)
 Definition obs_pre (H : hist) (D : dhist) (s : db) (v : rev) (d : qkey) (md : memo) : Prop :=
   m_changed md <= v \/ exists k, durge H D v k d /\ lcs s k <= v.
@@ -42,6 +53,9 @@ Record dmemo_ok (H : hist) (D : dhist) (s : db) (q : qkey) (m : memo) : Prop := 
   mo_untr : m_untracked m = true -> m_dur m = 0;
   mo_durge : durge H D (m_verified m) (m_dur m) q;
   mo_dur3 : m_dur m <= 3;
+  (* changed_at is bounded by the current stamp of something the verified run reads *)
+  mo_stamp : m_changed m <= 1 \/
+             exists x, In x (tr H (m_verified m) q) /\ sle s (m_changed m) x;
   mo_obs : forall d, clos H (m_verified m) q d ->
            exists md, d_memo s d = Some md /\
              (obs_pre H D s (m_verified m) d md ->
@@ -102,24 +116,33 @@ Record dext (s s' : db) : Prop := {
   ext_valid : forall q m, d_memo s q = Some m -> m_verified m = cur s -> m_val m <> None ->
               d_memo s' q = Some m;
   ext_vcur : forall q m, d_memo s q = Some m -> m_verified m = cur s ->
-             exists m', d_memo s' q = Some m' /\ m_verified m' = cur s /\ m_dur m <= m_dur m'
+             exists m', d_memo s' q = Some m' /\ m_verified m' = cur s /\ m_dur m <= m_dur m';
+  ext_mono : forall q m, d_memo s q = Some m ->
+             exists m', d_memo s' q = Some m' /\ m_changed m <= m_changed m'
 }.
 
 Lemma dext_refl s : dext s s.
-Proof. constructor; auto. intros q m Hm Hv. exists m. split; [exact Hm|]. split; [exact Hv | lia]. Qed.
+Proof.
+  constructor; auto.
+  - intros q m Hm Hv. exists m. split; [exact Hm|]. split; [exact Hv | lia].
+  - intros q m Hm. exists m. split; [exact Hm | lia].
+Qed.
 
 Lemma dext_cur s s' : dext s s' -> cur s' = cur s.
-Proof. intros [Hr _ _ _ _ _ _]. unfold cur. rewrite Hr. reflexivity. Qed.
+Proof. intros [Hr _ _ _ _ _ _ _]. unfold cur. rewrite Hr. reflexivity. Qed.
 
 Lemma dext_trans s1 s2 s3 : dext s1 s2 -> dext s2 s3 -> dext s1 s3.
 Proof.
   intros H12 H23. pose proof (dext_cur _ _ H12) as Hc.
-  destruct H12 as [a1 b1 c1 d1 g1 e1 f1], H23 as [a2 b2 c2 d2 g2 e2 f2].
+  destruct H12 as [a1 b1 c1 d1 g1 e1 f1 h1], H23 as [a2 b2 c2 d2 g2 e2 f2 h2].
   constructor; try congruence; auto.
   - intros q m Hm Hv Hx. apply e2; [apply e1; assumption | rewrite Hc; exact Hv | exact Hx].
   - intros q m Hm Hv. destruct (f1 q m Hm Hv) as (m' & Hm' & Hv' & Hd').
     destruct (f2 q m' Hm') as (m'' & Hm'' & Hv'' & Hd''); [rewrite Hc; exact Hv'|].
     exists m''. split; [exact Hm''|]. split; [rewrite <- Hc; exact Hv'' | lia].
+  - intros q m Hm. destruct (h1 q m Hm) as (m' & Hm' & Hc').
+    destruct (h2 q m' Hm') as (m'' & Hm'' & Hc'').
+    exists m''. split; [exact Hm''|]. lia.
 Qed.
 
 (* a computation for a query of rank < k leaves memos of rank >= k alone *)
@@ -150,12 +173,14 @@ Proof. intros Hr. unfold obs_pre, lcs. rewrite Hr. auto. Qed.
 Lemma dmemo_ok_core_eq H D s s' q m : dcore_eq s s' -> dmemo_ok H D s q m -> dmemo_ok H D s' q m.
 Proof.
   intros Hc Hm. pose proof (dcore_eq_cur _ _ Hc) as Hcur.
-  destruct Hc as (Hr & _ & _ & Hmm).
-  destruct Hm as [a b c d e f g h i j].
+  destruct Hc as (Hr & Hi & _ & Hmm).
+  destruct Hm as [a b c d e f g h i k j].
   constructor; rewrite ?Hcur; auto.
-  intros d0 Hd0. destruct (j d0 Hd0) as (md & Hmd & Hobs).
-  exists md. split; [rewrite Hmm; exact Hmd|].
-  intros Hp. apply Hobs. apply (obs_pre_core_eq H D s' s); [congruence | exact Hp].
+  - destruct k as [A | (x & Hx & Hs)]; [left; exact A | right].
+    exists x. split; [exact Hx|]. destruct x as [i0 | d0 | c0 |]; cbn in *; rewrite ?Hi, ?Hmm; exact Hs.
+  - intros d0 Hd0. destruct (j d0 Hd0) as (md & Hmd & Hobs).
+    exists md. split; [rewrite Hmm; exact Hmd|].
+    intros Hp. apply Hobs. apply (obs_pre_core_eq H D s' s); [congruence | exact Hp].
 Qed.
 
 Lemma DInv_core_eq H D s s' : dcore_eq s s' -> DInv H D s -> DInv H D s'.
@@ -182,17 +207,24 @@ Lemma DInv_store H D s q m :
      E H (m_verified mg) q = E H (cur s) q /\ m_dur mg <= m_dur m) ->
   (forall m0, d_memo s q = Some m0 -> m_verified m0 = cur s ->
      (m_val m0 <> None -> m0 = m) /\ m_dur m0 <= m_dur m) ->
+  (forall m0, d_memo s q = Some m0 -> m_changed m0 <= m_changed m) ->
   DInv H D (store s q m) /\ dext s (store s q m).
 Proof.
-  intros HI Hv Hok Hobs Hsame.
+  intros HI Hv Hok Hobs Hsame Hmono.
   destruct HI as [a a' b b' c d e f g].
   split.
   - constructor; rewrite ?cur_store; auto.
     intros p mp Hp. unfold store in Hp; cbn in Hp. unfold upd in Hp.
     destruct (key_eqb_spec q p) as [<- | Hne].
     + injection Hp as <-. exact Hok.
-    + specialize (g p mp Hp). destruct g as [g1 g2 g3 g4 g5 g6 g7 g8 g9 g10].
+    + specialize (g p mp Hp). destruct g as [g1 g2 g3 g4 g5 g6 g7 g8 g9 g11 g10].
       constructor; rewrite ?cur_store; auto.
+      { destruct g11 as [A | (x & Hx & Hs)]; [left; exact A | right].
+        exists x. split; [exact Hx|]. destruct x as [i0 | d0 | c0 |]; cbn in *; try exact Hs.
+        destruct Hs as (md & Hmd & Hle). unfold upd.
+        destruct (key_eqb_spec q d0) as [<- | Hne0].
+        - exists m. split; [reflexivity|]. specialize (Hmono md Hmd). lia.
+        - exists md. split; assumption. }
       intros d0 Hd0. destruct (g10 d0 Hd0) as (md & Hmd & Hmdo).
       unfold store; cbn. unfold upd. destruct (key_eqb_spec q d0) as [<- | Hne0].
       * exists m. split; [reflexivity|]. intros Hp0. rewrite Hv.
@@ -207,12 +239,34 @@ Proof.
       * exists m. split; [reflexivity|]. split; [exact Hv|].
         destruct (Hsame mp Hp Hvp) as [_ Hle]. exact Hle.
       * exists mp. split; [exact Hp|]. split; [exact Hvp | lia].
+    + intros p mp Hp. unfold store; cbn. unfold upd.
+      destruct (key_eqb_spec q p) as [<- | Hne].
+      * exists m. split; [reflexivity|]. apply Hmono; exact Hp.
+      * exists mp. split; [exact Hp | lia].
 Qed.
 
 Lemma dtouch_store s q m k : (rank q < k)%nat -> dtouch_below s (store s q m) k.
 Proof.
   intros Hk p Hp. assert (Hne : q <> p) by (intros ->; lia).
   unfold store; cbn. apply upd_other; exact Hne.
+Qed.
+
+(* ---------------------------------------------------------------- panics that may escape a Get *)
+(* only an injected fault, and only while some fault switch is on: the backdate-violation
+   assertion of debug builds is unreachable (changed_at stamps never decrease: [ext_mono]) *)
+Definition dallowed (s : db) (p : panic) : Prop :=
+  p = PInjected /\ ((exists c, d_pcell s c <> 0) \/ d_evfault s <> None).
+
+Lemma dallowed_allowed s p : dallowed s p -> allowed s p.
+Proof. intros Hx. right; exact Hx. Qed.
+
+Lemma dallowed_ext s s' p :
+  d_pcell s' = d_pcell s -> (d_evfault s = None -> d_evfault s' = None) ->
+  dallowed s' p -> dallowed s p.
+Proof.
+  intros He Hf [-> [(c & Hc) | Hn]]; (split; [reflexivity|]).
+  - left. exists c. rewrite <- He. exact Hc.
+  - right. intros H0. apply Hn. apply Hf. exact H0.
 Qed.
 
 End DInv.
